@@ -14,6 +14,7 @@
 //   limitations under the License.
 //
 #include <assert.h>            // for assert
+#include <algorithm>           // for remove_if
 #include <ext/alloc_traits.h>  // for __alloc_traits<>::value_type
 #include <iomanip>             // for operator<<, setfill, setw
 #include <iostream>            // for operator<<, basic_ostream, ostream, cout
@@ -142,8 +143,20 @@ public:
 	// Note that indexing within catalogs[][] is 0-based, unlike the
 	// normal usage for DFS catalogs, because the 0-entry for the disc
 	// title is not included.
-	const std::vector<std::vector<DFS::CatalogEntry>> catalogs =
+	std::vector<std::vector<DFS::CatalogEntry>> catalogs =
 	  root.get_catalog_in_disc_order();
+	// A zero-length file occupies no sectors at all (it normally
+	// has the same start sector as the file saved after it), so
+	// it cannot delimit a gap.
+	for (auto& entries : catalogs)
+	  {
+	    entries.erase(std::remove_if(entries.begin(), entries.end(),
+					 [](const DFS::CatalogEntry& e)
+					 {
+					   return e.file_length() == 0;
+					 }),
+			  entries.end());
+	  }
 	assert(catalogs.size() <= std::numeric_limits<int>::max());
 	auto start_sec_of_next = [&catalogs, &root]
 	  (unsigned int catalog, unsigned int entry) -> DFS::sector_count_type
@@ -152,9 +165,16 @@ public:
 				   assert(entry <= catalogs[catalog].size());
 				   if (entry > 0)
 				     return catalogs[catalog][entry-1].start_sector();
-				   if (catalog == catalogs.size()-1)
-				     return root.total_sectors();
-				   return catalogs[catalog+1].back().start_sector();
+				   // The next file on the disc is the last entry
+				   // of the next catalog which has any entries.
+				   for (unsigned int next = catalog + 1;
+					next < catalogs.size();
+					++next)
+				     {
+				       if (!catalogs[next].empty())
+					 return catalogs[next].back().start_sector();
+				     }
+				   return root.total_sectors();
 				 };
 	std::vector<unsigned int> gaps;
 	auto maybe_gap = [&gaps](DFS::sector_count_type last,
